@@ -28,6 +28,12 @@ type pkgUnit struct {
 }
 
 func loadUnit(path string, filenames []string, goVersion string) *pkgUnit {
+	return loadUnitWith(path, filenames, goVersion, nil)
+}
+
+// loadUnitWith type-checks a package whose imports are "unsafe" or packages of the same generated group that have
+// been type-checked before (siblings: import path -> package).
+func loadUnitWith(path string, filenames []string, goVersion string, siblings map[string]*types.Package) *pkgUnit {
 	u := &pkgUnit{fset: token.NewFileSet()}
 	for _, fn := range filenames {
 		f, err := parser.ParseFile(u.fset, fn, nil, parser.ParseComments|parser.SkipObjectResolution)
@@ -47,7 +53,7 @@ func loadUnit(path string, filenames []string, goVersion string) *pkgUnit {
 		Selections:   map[*ast.SelectorExpr]*types.Selection{},
 		FileVersions: map[*ast.File]string{},
 	}
-	conf := types.Config{GoVersion: goVersion, Sizes: types.SizesFor("gc", "amd64"), Importer: unsafeOnly{}}
+	conf := types.Config{GoVersion: goVersion, Sizes: types.SizesFor("gc", "amd64"), Importer: unsafeOnly{siblings}}
 	u.pkg, u.err = conf.Check(path, u.fset, u.files, u.info)
 	return u
 }
@@ -62,14 +68,30 @@ type runCtx struct {
 	results  map[*analysis.Analyzer]any
 	errs     map[*analysis.Analyzer]error
 	done     map[*analysis.Analyzer]bool
-	objFacts map[factKey]analysis.Fact
-	pkgFacts map[reflect.Type]analysis.Fact
+	objFacts map[factKey]analysis.Fact    // shared by the packages of one group (facts flow to importers)
+	pkgFacts map[pkgFactKey]analysis.Fact // likewise
 	diags    int
 }
 
-func newRunCtx(u *pkgUnit) *runCtx {
+type pkgFactKey struct {
+	pkg *types.Package
+	typ reflect.Type
+}
+
+type factStore struct {
+	obj map[factKey]analysis.Fact
+	pkg map[pkgFactKey]analysis.Fact
+}
+
+func newFactStore() *factStore {
+	return &factStore{obj: map[factKey]analysis.Fact{}, pkg: map[pkgFactKey]analysis.Fact{}}
+}
+
+func newRunCtx(u *pkgUnit) *runCtx { return newRunCtxWith(u, newFactStore()) }
+
+func newRunCtxWith(u *pkgUnit, fs *factStore) *runCtx {
 	return &runCtx{u: u, results: map[*analysis.Analyzer]any{}, errs: map[*analysis.Analyzer]error{}, done: map[*analysis.Analyzer]bool{},
-		objFacts: map[factKey]analysis.Fact{}, pkgFacts: map[reflect.Type]analysis.Fact{}}
+		objFacts: fs.obj, pkgFacts: fs.pkg}
 }
 
 type panicErr struct {
@@ -116,13 +138,13 @@ func (c *runCtx) run(a *analysis.Analyzer) (res any, err error) {
 		},
 		ExportObjectFact: func(obj types.Object, f analysis.Fact) { c.objFacts[factKey{obj, reflect.TypeOf(f)}] = f },
 		ImportPackageFact: func(p *types.Package, f analysis.Fact) bool {
-			if v, ok := c.pkgFacts[reflect.TypeOf(f)]; ok && p == c.u.pkg {
+			if v, ok := c.pkgFacts[pkgFactKey{p, reflect.TypeOf(f)}]; ok {
 				reflect.ValueOf(f).Elem().Set(reflect.ValueOf(v).Elem())
 				return true
 			}
 			return false
 		},
-		ExportPackageFact: func(f analysis.Fact) { c.pkgFacts[reflect.TypeOf(f)] = f },
+		ExportPackageFact: func(f analysis.Fact) { c.pkgFacts[pkgFactKey{c.u.pkg, reflect.TypeOf(f)}] = f },
 		AllObjectFacts: func() []analysis.ObjectFact {
 			var out []analysis.ObjectFact
 			for k, v := range c.objFacts {
@@ -163,11 +185,14 @@ func trimStack(s string) string {
 }
 
 // the generated programs import nothing but "unsafe"
-type unsafeOnly struct{}
+type unsafeOnly struct{ siblings map[string]*types.Package }
 
-func (unsafeOnly) Import(path string) (*types.Package, error) {
+func (u unsafeOnly) Import(path string) (*types.Package, error) {
 	if path == "unsafe" {
 		return types.Unsafe, nil
+	}
+	if p := u.siblings[path]; p != nil {
+		return p, nil
 	}
 	return nil, fmt.Errorf("generated programs must not import %q", path)
 }
